@@ -199,6 +199,21 @@ func batch(t *testing.T, p *Prop) {
 		}
 		seed := seedFor(*fBase, idx)
 		pl := gen(p, seed)
+		if len(pl.Sched.PreemptFrac) > 0 && pl.Mode != "race" && pl.Mode != "plain" {
+			// two-pass placement of preemptions
+			dry := pl.Clone()
+			dry.Sched.PreemptFrac, dry.Sched.Preempts = nil, nil
+			os.WriteFile(journal, dry.JSON(), 0o644)
+			d := execute(t, p, dry, false)
+			n := d.Counters["sched.steps"]
+			for _, f := range pl.Sched.PreemptFrac {
+				if k := int(f * float64(n)); k >= 1 {
+					pl.Sched.Preempts = append(pl.Sched.Preempts, k)
+				}
+			}
+			res.Counters["sched.dry_runs"]++
+		}
+		pl.Sched.PreemptFrac = nil
 		os.WriteFile(journal, pl.JSON(), 0o644)
 		var out *plan.Outcome
 		if *fLayer == "race" {
